@@ -596,6 +596,28 @@ func Generate(r *rand.Rand, profile string, concurrent bool, av Avoid) *Plan {
 		ops = append(ops, frag...)
 		p.Ops = append(ops, p.Ops[at:]...)
 	}
+	// Directed fragment (scale): a pool that grows far beyond the usual handful
+	// of channels - maxSize 33-70, watermark 1: every held call saturates the
+	// pool, one channel is added, comes up, takes the next call. Size bound and
+	// least-loaded placement must hold at 9, 17, 33, 65 channels as at 3.
+	if profile == "growth" && !concurrent && !p.Cfg.RR && r.IntN(25) == 0 && len(p.Ops) > 4 {
+		p.Cfg.Min, p.Cfg.WM = 1, 1
+		p.Cfg.Max = uint32(33 + r.IntN(38))
+		frag := []Op{{K: OpConn, A: 0, B: ConnProgress}, {K: OpConn, A: 0, B: ConnProgress}}
+		n := int(p.Cfg.Max) + 2
+		for c := 0; c < n; c++ {
+			// held call; when it saturates the pool it is told to wait and a channel is
+			// created: bring that one up and place one call there
+			frag = append(frag, Op{K: OpPick, B: MPlain}, Op{K: OpConn, A: -1, B: ConnProgress}, Op{K: OpConn, A: -1, B: ConnProgress})
+		}
+		for c := 0; c < 4; c++ {
+			frag = append(frag, Op{K: OpDone, A: r.IntN(8), B: OutOK}, Op{K: OpPick, B: MPlain})
+		}
+		at := 1 + r.IntN(2)
+		ops := append([]Op{}, p.Ops[:at]...)
+		ops = append(ops, frag...)
+		p.Ops = append(ops, p.Ops[at:]...)
+	}
 	// Directed concurrent fragment: two BINDs for the same key in flight on
 	// different channels whose completion callbacks overlap, then keyed calls.
 	if concurrent && (profile == "affinity" || profile == "fallback" || profile == "chaos") && r.IntN(3) == 0 && len(p.Ops) > 4 {
